@@ -12,6 +12,7 @@ import sys
 import time
 
 from . import core
+from . import reach
 from .world import World, HarnessError
 
 VERIF = os.path.dirname(os.path.dirname(os.path.abspath(__file__)))
@@ -138,6 +139,7 @@ def match_finding(v, findings):
 def _work(args):
     prop, verif_seed, tier, lo, hi, want_digests, deadline = args
     world = get_world()
+    reach.start(world)
     findings = load_findings()
     m = machine_for(prop)
     out = {'runs': 0, 'ops': 0, 'compared': 0, 'fired': {}, 'probes': {}, 'sigs': set(),
@@ -175,6 +177,7 @@ def _work(args):
                 if len(out['violations']) < 8:
                     out['violations'].append({'run_index': idx, 'violation': v})
     out['sigs'] = sorted(out['sigs'])
+    out['reach'] = reach.drain()
     return out
 
 
@@ -337,7 +340,8 @@ def check(prop, tier, verif_seed, jobs=None, runs=None, budget=None):
     tasks = [(prop, verif_seed, tier, lo, min(nruns, lo + chunk), want_digests, deadline)
              for lo in range(0, nruns, chunk)]
     agg = {'runs': 0, 'ops': 0, 'compared': 0, 'fired': {}, 'probes': {}, 'sigs': set(), 'violations': [],
-           'known': {}, 'digests': {}, 'samples': [], 'timeouts': 0, 'nviol': 0, 'max_index': 0}
+           'known': {}, 'digests': {}, 'samples': [], 'timeouts': 0, 'nviol': 0, 'max_index': 0,
+           'reach': set()}
     ctx = multiprocessing.get_context('fork')
     try:
         with concurrent.futures.ProcessPoolExecutor(max_workers=jobs, mp_context=ctx) as ex:
@@ -355,6 +359,7 @@ def check(prop, tier, verif_seed, jobs=None, runs=None, budget=None):
                 for k, v in out['known'].items():
                     agg['known'][k] = agg['known'].get(k, 0) + v
                 agg['sigs'].update(out['sigs'])
+                agg['reach'].update(tuple(h) for h in out.get('reach', ()))
                 agg['digests'].update(out['digests'])
                 if len(agg['samples']) < 3:
                     agg['samples'].extend(out['samples'])
@@ -442,6 +447,7 @@ def check(prop, tier, verif_seed, jobs=None, runs=None, budget=None):
             'simulated_time_covered': "0 s: PySpike has no clock, timer, sleep or deadline; progress is counted in operations",
             'faults_fired': dict(sorted(agg['fired'].items())),
             'reach_probes': dict(sorted(agg['probes'].items())),
+            'line_reach': reach.summarize(world, agg['reach'], getattr(m, 'REACH_FILES', {}).get(prop)),
             'known_findings_matched': agg['known'],
             'corpus_replayed': [os.path.basename(p) for p, _ in corpus],
             'determinism_selftest': {'runs_reexecuted_in_fresh_interpreter': det_n, 'identical': det_ok},
